@@ -224,6 +224,48 @@ theorem copyNodeUp_eff (p : Path) (m : MNode) (st : Node) :
     rw [hst] at himg
     exact ⟨_, ⟨this.cons, this.up, rfl⟩, himg, not_whiteout_of_view himg hvis.1 hvis.2⟩
 
+/-- every ancestor of a visible path is visible -/
+theorem visible_ancestors (d : Disk) : ∀ (l : List Name) (q : Path), specStat d (l ++ q) ≠ none → specStat d q ≠ none
+  | [], _, h => h
+  | c :: l, q, h => by
+    apply visible_ancestors d l q
+    intro hn
+    apply h
+    exact specStat_below d c (l ++ q) (fun st hst => by rw [hn] at hst; cases hst)
+
+/-- `copy_up_preserves`, end to end: after a successful `copy_node_up(p)` of a visible node, the
+    union shows at `p` AND AT EVERY ANCESTOR of `p` what it showed before — type, permission bits,
+    content, link target — up to the `user.x` xattr (which is not copied: known finding); the node
+    is backed by the upper layer, the cache is valid and the lower layers are untouched. -/
+theorem copyNodeUp_view {s s' : St} (hc : Consistent s) {p : Path} (hvis : specStat s.disk p ≠ none)
+    (hmem : ∃ m, s.mem p = some m) (h : copyNodeUp p s = .ok () s') :
+    Consistent s' ∧ UpAt p s' ∧ s'.disk.lowers = s.disk.lowers ∧
+      ∀ q, q.isSuffixOf p = true → (merge s'.disk q).dropX = (merge s.disk q).dropX := by
+  have hcud := copyNodeUp_spec p s hc
+  rw [h] at hcud
+  refine ⟨hcud.cons, hcud.up, hcud.lowers, fun q hq => ?_⟩
+  obtain ⟨m, hm⟩ := hmem
+  obtain ⟨t, ht⟩ := List.isSuffixOf_iff_suffix.1 hq
+  -- the node at `q` before
+  obtain ⟨mq, hmq⟩ := mem_suffix_closed hc t q m (by rw [ht]; exact hm)
+  have hvq : specStat s.disk q ≠ none := visible_ancestors s.disk t q (by rw [ht]; exact hvis)
+  cases hsq : specStat s.disk q with
+  | none => exact absurd hsq hvq
+  | some stq =>
+    obtain ⟨hwq, r, rest, hr, hstq⟩ := not_whiteout_of_spec hc hmq hsq
+    have himg := hcud.anc q hq mq r rest hmq hr hwq
+    rw [hstq] at himg
+    have hvisq := visible_stat hc hmq hwq hr
+    rw [hstq] at hvisq
+    -- the node at `q` afterwards: in the upper layer
+    obtain ⟨m', hm', hmu'⟩ := hcud.up
+    obtain ⟨mq', hmq', _, _⟩ := hcud.keep q mq hmq
+    have hmqu' := ancestors_inUpper hcud.cons t q m' mq' (by rw [ht]; exact hm') hmu' hmq'
+    have hup : UpNode q (s'.disk.nodeAt 0 q) s' := ⟨hcud.cons, ⟨mq', hmq', hmqu'⟩, rfl⟩
+    rw [merge_eq_specStat s'.disk hcud.cons.roots, merge_eq_specStat s.disk hc.roots, hsq,
+      specStat_of_upNode hup (not_whiteout_of_view himg hvisq.1 hvisq.2)]
+    exact himg
+
 /-- `if !node.in_upper_layer() { copy_node_up }` -/
 theorem ensureUp_eff (p : Path) (m : MNode) (st : Node) :
     Triple (fun s => Consistent s ∧ s.mem p = some m ∧ m.whiteout = false ∧
